@@ -31,23 +31,26 @@ func (e *executionContext) terminated() {
 	e.onTerminated = nil
 }
 
-func (e *executionContext) AppendLog(ctx context.Context, log *ledger.Log) (*ledger.ChainedLog, chan struct{}, error) {
+// AppendLog commits the log: it is chained, handed to the batcher and, for a log carrying a new transaction
+// (tx != nil), the transaction gets its id. A preview chains nothing, allocates nothing and persists nothing.
+func (e *executionContext) AppendLog(ctx context.Context, log *ledger.Log, tx *ledger.Transaction) (*ledger.ChainedLog, chan struct{}, error) {
 	if e.parameters.DryRun {
 		ret := make(chan struct{})
 		close(ret)
+		if tx != nil {
+			tx.ID = e.commander.peekTXID()
+		}
 		return log.ChainLog(nil), ret, nil
 	}
 
-	verifhook.Yield(ctx, "chain")
-	chainedLog := e.commander.chainLog(log)
+	verifhook.Yield(ctx, "commit")
+	done := make(chan struct{})
+	chainedLog := e.commander.commit(log, tx, func() {
+		close(done)
+	})
 	logging.FromContext(ctx).WithFields(map[string]any{
 		"id": chainedLog.ID,
 	}).Debugf("Appending log")
-	verifhook.Yield(ctx, "handoff")
-	done := make(chan struct{})
-	e.commander.Append(chainedLog, func() {
-		close(done)
-	})
 	return chainedLog, done, nil
 }
 
